@@ -351,3 +351,69 @@ func walkerStrictFor(p *Prog, fn *ssa.Function, paramIdx int, flag AVal) (strict
 	strictCache.Store(ck, [2]bool{strict, known})
 	return strict, known
 }
+
+var outermostCache sync.Map
+
+// outermostAtom: the path condition that says "this is the outermost object" in the struct walker.
+// On the baseline tree it is `structName == ""`. When the walker has a bool parameter that is true at
+// exactly those call sites that pass the empty path and false at all others, that parameter says the
+// same thing explicitly and the walker may test it instead.
+func outermostAtom(p *Prog) string {
+	const def = `eq("",structName)`
+	if v, ok := outermostCache.Load(p); ok {
+		return v.(string)
+	}
+	res := def
+	defer func() { outermostCache.Store(p, res) }()
+	w := p.Method("valid", "VStruct", "validate")
+	if w == nil || len(w.Params) < 3 {
+		return res
+	}
+	nameIdx := -1
+	for i, prm := range w.Params {
+		if bt, ok := prm.Type().Underlying().(*types.Basic); ok && bt.Kind() == types.String && nameIdx < 0 {
+			nameIdx = i
+		}
+	}
+	if nameIdx < 0 {
+		return res
+	}
+	for i, prm := range w.Params {
+		bt, ok := prm.Type().Underlying().(*types.Basic)
+		if !ok || bt.Kind() != types.Bool {
+			continue
+		}
+		consistent, sawOuter, sawInner := true, false, false
+		for _, fn := range p.Funcs {
+			for _, b := range fn.Blocks {
+				for _, ins := range b.Instrs {
+					ci, ok := ins.(ssa.CallInstruction)
+					if !ok || staticCallee(ci.Common()) != w {
+						continue
+					}
+					args := ci.Common().Args
+					if len(args) <= i || len(args) <= nameIdx {
+						consistent = false
+						continue
+					}
+					s, isConst := constString(args[nameIdx])
+					outer := isConst && s == ""
+					bv, known := constBool(args[i])
+					if !known || bv != outer {
+						consistent = false
+					}
+					if outer {
+						sawOuter = true
+					} else {
+						sawInner = true
+					}
+				}
+			}
+		}
+		if consistent && sawOuter && sawInner {
+			res = prm.Name()
+			return res
+		}
+	}
+	return res
+}
